@@ -80,11 +80,71 @@ fn gen_boundary(rng: &mut Rng) -> i64 {
         -v
     }
 }
-fn gen_time(rng: &mut Rng) -> i64 {
-    if rng.chance(0.4) {
-        gen_boundary(rng)
+const NS: i64 = 1_000_000_000;
+/// "Round" nanosecond counts, the ones a special-cased conversion would single out: whole seconds
+/// (1..=300 s, up to 4e6 s, up to the 2^62 ns limit ~ 4.6e9 s), whole milliseconds / microseconds,
+/// multiples of 2^32 ns, powers of two. 8 <= |v| + 8 <= 2^62 so that +-4 ns neighbours stay in range.
+fn gen_round_time(rng: &mut Rng) -> i64 {
+    let v = match rng.below(8) {
+        0 | 1 => rng.range_i64(1, 300) * NS,
+        2 => rng.range_i64(1, 4_000_000) * NS,
+        3 => {
+            let kb = rng.below(33) as u32;
+            rng.range_i64(1, (1i64 << kb).min(4_611_686_017)) * NS
+        }
+        4 => {
+            let kb = rng.below(43) as u32;
+            rng.range_i64(1, (1i64 << kb).min(4_611_686_018_426)) * 1_000_000
+        }
+        5 => {
+            let kb = rng.below(53) as u32;
+            rng.range_i64(1, (1i64 << kb).min(4_611_686_018_427_386)) * 1_000
+        }
+        6 => {
+            let kb = rng.below(30) as u32;
+            rng.range_i64(1, 1i64 << kb) << 32
+        }
+        _ => 1i64 << rng.range_i64(0, 61),
+    };
+    let v = v.min(P62 - 8);
+    if rng.chance(0.5) {
+        v
     } else {
-        gen_i64(rng, 62)
+        -v
+    }
+}
+/// a round time or its +-1 ns neighbour
+fn gen_round_neighbour(rng: &mut Rng) -> i64 {
+    gen_round_time(rng) + *rng.pick(&[0i64, 0, 1, -1])
+}
+fn gen_time(rng: &mut Rng) -> i64 {
+    match rng.below(10) {
+        0..=2 => gen_boundary(rng),
+        3..=5 => gen_round_neighbour(rng),
+        _ => gen_i64(rng, 62),
+    }
+}
+/// DimensionlessInteger operands: additionally the integers around the limits of f32 / i32
+/// representability and powers of ten (a detour through f64 or i32 differs from `as f32` only there).
+fn gen_di(rng: &mut Rng) -> i64 {
+    match rng.below(10) {
+        0..=2 => {
+            let v = match rng.below(6) {
+                0 => 1i64 << 24,
+                1 => (1i64 << 24) + 1,
+                2 => (1i64 << 24) + 3,
+                3 => (1i64 << 31) + 1,
+                4 => 10i64.pow(rng.below(19) as u32),
+                _ => 10i64.pow(rng.below(19) as u32) + 1,
+            };
+            if rng.chance(0.5) {
+                v
+            } else {
+                -v
+            }
+        }
+        3 => rng.range_i64(-3, 3),
+        _ => gen_time(rng),
     }
 }
 /// largest f32 strictly below `limit`
@@ -338,14 +398,20 @@ fn t2q_case(rep: &mut Report, sub: &'static str, case: u64, t: i64) {
 
 // ------------------------------------------------------------------------------------------ mono
 fn mono_case(rep: &mut Report, rng: &mut Rng, sub: &'static str, case: u64) {
-    let kind = rng.below(5);
-    let kind_name = ["adjacent", "small-step", "ulp-step", "sorted-random", "equal-and-adjacent"][kind as usize];
+    let kind = rng.below(6);
+    let kind_name = ["adjacent", "small-step", "ulp-step", "sorted-random", "equal-and-adjacent", "round-time-neighbours"][kind as usize];
     let mut ts: Vec<i64> = Vec::with_capacity(9);
     if kind == 3 {
         for _ in 0..9 {
             ts.push(gen_time(rng));
         }
         ts.sort();
+    } else if kind == 5 {
+        // c-4 ..= c+4 around a whole second / millisecond / microsecond / multiple of 2^32 / power of two
+        let c = gen_round_time(rng);
+        for dlt in -4..=4 {
+            ts.push(c + dlt);
+        }
     } else {
         let t0 = gen_time(rng).min(P62 - (1 << 45)); // room for 8 steps below 2^62
         ts.push(t0);
@@ -468,7 +534,7 @@ fn roundtrip_case(rep: &mut Report, rng: &mut Rng, sub: &'static str, case: u64)
 fn di_conv_case(rep: &mut Report, rng: &mut Rng, sub: &'static str, case: u64) {
     // DimensionlessInteger -> Quantity: the statement only says "faithful": accept either
     // neighbouring f32 (<= 1 ulp from the nearest), unit dimensionless.
-    let n = gen_time(rng);
+    let n = gen_di(rng);
     rep.distinct(("di2q", bitlen(n), sgn(n)));
     rep.eval();
     match catch(|| Quantity::from(DimensionlessInteger(n))) {
@@ -573,17 +639,57 @@ fn gen_val(rng: &mut Rng) -> f32 {
     }
 }
 const MIXED_CELLS: u64 = 27;
-fn mixed_case(rep: &mut Report, rng: &mut Rng, sub: &'static str, case: u64, m: i8, s: i8) {
-    let a = gen_val(rng);
-    let n = if rng.chance(0.15) { rng.range_i64(-3, 3) } else { gen_time(rng) };
+/// Quantity operand values related to the Time / integer operand: equal or opposite to the converted
+/// operand (as the crate converts it, and as the exactly rounded seconds / integer), zero, one, and
+/// values far below / around one ulp of it. Cancellation makes a 1-ulp difference in the converted
+/// operand visible in the result.
+fn related_vals(n: i64, nd: i64) -> Vec<f32> {
+    let tv = catch(|| Quantity::from(Time(n)).value).unwrap_or(0.0);
+    let dv = catch(|| Quantity::from(DimensionlessInteger(nd)).value).unwrap_or(0.0);
+    let te = (n as f64 / 1e9) as f32;
+    let de = nd as f64 as f32;
+    let mut v = vec![0.0, 1.0, -1.0];
+    for x in [tv, te, dv, de] {
+        v.push(x);
+        v.push(-x);
+        v.push(x * 5.9604645e-8); // 2^-24 * x: about half an ulp of x
+        v.push(-x * 1.1920929e-7);
+    }
+    v
+}
+fn gen_mixed_operands(rng: &mut Rng) -> (f32, i64, i64, i64) {
+    let n = if rng.chance(0.1) { rng.range_i64(-3, 3) } else { gen_time(rng) };
+    let nd = if rng.chance(0.5) { gen_di(rng) } else { n };
     let n2 = if rng.chance(0.1) { rng.range_i64(-3, 3) } else { gen_time(rng) };
+    let a = if rng.chance(0.4) {
+        let pool = related_vals(n, nd);
+        *rng.pick(&pool)
+    } else {
+        gen_val(rng)
+    };
+    (a, n, nd, n2)
+}
+fn mixed_case(rep: &mut Report, rng: &mut Rng, sub: &'static str, case: u64, m: i8, s: i8) {
+    let (a, n, nd, n2) = gen_mixed_operands(rng);
+    mixed_cells(rep, sub, case, m, s, a, n, nd, n2);
+}
+fn mixed_cells(rep: &mut Report, sub: &'static str, case: u64, m: i8, s: i8, a: f32, n: i64, nd: i64, n2: i64) {
     let qa = Quantity::new(a, Unit::new(m, s));
     let t = Time(n);
-    let d = DimensionlessInteger(n);
+    let d = DimensionlessInteger(nd);
     let t2 = Time(n2);
-    let det = format!("Quantity::new({}, mm^{} s^{}), Time({})/DimensionlessInteger({}), second Time({})", f(a), m, s, n, n, n2);
+    let det = format!("Quantity::new({}, mm^{} s^{}), Time({}), DimensionlessInteger({}), second Time({})", f(a), m, s, n, nd, n2);
     let vcls = if a.is_nan() { 3 } else if a.is_infinite() { 2 } else if a == 0.0 { 1 } else { 0 };
-    rep.distinct(("mixed", m, s, bitlen(n), sgn(n), vcls));
+    rep.distinct(("mixed", m, s, bitlen(n), sgn(n), n % NS == 0, vcls));
+    if n != 0 && n % NS == 0 {
+        rep.tally("mixed_whole_second_time");
+        if (m, s) == (0, 1) {
+            rep.tally("mixed_whole_second_time_on_second");
+        }
+    }
+    if (nd as f32) as f64 != nd as f64 && (m, s) == (0, 0) {
+        rep.tally("mixed_f32_inexact_integer_on_dimensionless");
+    }
     macro_rules! cell {
         ($name:expr, $real:expr, $orac:expr) => {
             check_cell(rep, $name, sub, case, &det, catch(|| -> Quantity { $real }), catch(|| -> Quantity { $orac }))
@@ -676,6 +782,31 @@ fn main() {
         }
         rep.exhaustive("Time -> Quantity for +-(2^k + {-1,0,1}), k = 0..62");
     }
+    // every whole second up to K (both signs): conversion accuracy, and neighbour probes t-1, t, t+1
+    {
+        let kmax = args.pick(10_000, 200_000) as i64;
+        let mut idx = 0u64;
+        for k in 1..=kmax {
+            for sg in [1i64, -1] {
+                if args.mine("seconds", idx) {
+                    let t = sg * k * NS;
+                    t2q_case(&mut rep, "seconds", idx, t);
+                    let vs: Vec<Option<f32>> = [t - 1, t, t + 1].iter().map(|&x| t2q(&mut rep, "seconds", idx, x).map(|q| q.value)).collect();
+                    for i in 0..2 {
+                        rep.eval();
+                        if let (Some(lo), Some(hi)) = (vs[i], vs[i + 1]) {
+                            if !(lo <= hi) {
+                                rep.violation("C18/t2q/monotone", "seconds", idx, format!("whole-second neighbours: Time({}) <= Time({}) but seconds {} > {}", t - 1 + i as i64, t + i as i64, f(lo), f(hi)));
+                            }
+                        }
+                    }
+                    rep.tally("seconds_neighbour_probes");
+                }
+                idx += 1;
+            }
+        }
+        rep.exhaustive("Time -> Quantity value and t-1,t,t+1 monotonicity around every whole second |k| <= 10^4 (quick) / 2*10^5 (thorough)");
+    }
     // ---- 2b. monotonicity
     for case in args.cases("mono", 60_000, 6_000_000) {
         let mut rng = Rng::new(args.seed, 1803, case);
@@ -727,6 +858,36 @@ fn main() {
         }
         rep.exhaustive("27 Quantity-valued mixed operator cells (three implementation tables) x 49 grid units");
     }
+    // the two units on which the addition / subtraction cells do not panic, at full case rate
+    for case in args.cases("mixed-live", 30_000, 3_000_000) {
+        let mut rng = Rng::new(args.seed, 1809, case);
+        let (m, s) = if case % 2 == 0 { (0, 1) } else { (0, 0) };
+        mixed_case(&mut rep, &mut rng, "mixed-live", case, m, s);
+    }
+    // every whole second 1..=300 s (and its +-1 ns neighbours), both signs, used as Time and as integer,
+    // against Quantity operands equal / opposite / negligible relative to it
+    {
+        let mut idx = 0u64;
+        for k in 1..=300i64 {
+            for sg in [1i64, -1] {
+                for dlt in [0i64, 1, -1] {
+                    let n = sg * k * NS + dlt;
+                    let pool = related_vals(n, sg * k + dlt);
+                    for (pi, &a) in pool.iter().enumerate() {
+                        // Time cells live on SECOND, integer cells on DIMENSIONLESS: alternate
+                        let (m, s) = if pi % 2 == 0 { (0, 1) } else { (0, 0) };
+                        for (m, s) in [(m, s), (0, 1 - s)] {
+                            if args.mine("mixed-seconds", idx) {
+                                mixed_cells(&mut rep, "mixed-seconds", idx, m, s, a, n, sg * k + dlt, sg * NS);
+                            }
+                            idx += 1;
+                        }
+                    }
+                }
+            }
+        }
+        rep.exhaustive("27 mixed cells for Time = +-k*1e9 + {0,1,-1} ns, k = 1..=300, x related Quantity operands x {SECOND, DIMENSIONLESS}");
+    }
     // coverage the checks depend on (merged tallies; all are met by quota for every seed)
     rep.floor("int_div_inexact_negative_quotient", 1_000);
     rep.floor("int_mul_nontrivial", 1_000);
@@ -743,6 +904,9 @@ fn main() {
     rep.floor("mixed_panic_both", 5_000);
     rep.floor("mixed_ok_both", 20_000);
     rep.floor("mixed_cases_on_second", 200);
+    rep.floor("mixed_whole_second_time_on_second", 5_000);
+    rep.floor("mixed_f32_inexact_integer_on_dimensionless", 5_000);
+    rep.floor("seconds_neighbour_probes", 20_000);
     rep.floor("mixed_cases_on_dimensionless", 200);
     rep.finish(&args);
 }
